@@ -78,8 +78,7 @@ InterId(X, m) ==
 KidsOfKind(X, j, k) == SelectSeq(Kids(X, j), LAMBDA c : X.nodes[c].k = k)
 
 \* ---- collect* phases -------------------------------------------------------
-\* ENUM rules: those registered while pasting come first, then the root ENUMs of the
-\* ORIGINAL tree (collectRules ranges over core.directives, MACROs removed).
+\* ENUM rules: the root ENUM directives of the expanded tree in document order (a pasted ENUM stands where its PASTE stood).
 RECURSIVE AddEnums(_, _, _, _)
 AddEnums(C, T, js, i) ==      \* js: sequence of T node ids
   IF i > Len(js) \/ C.res # "ok" THEN C
@@ -337,6 +336,7 @@ AddNode(C, X, j) ==
                    LET r == Len(C.inters[ii].responses) IN
                    IF cr.fault = "typeandnotation" THEN CErr(C, "typeandnotation", j, "kw")
                    ELSE IF ~cr.has THEN CErr(C, "bodyempty", j, "kw")
+                   ELSE IF C.inters[ii].responses[r].body # <<>> THEN CErr(C, "notunique", j, "kw")      \* a second Body of the same response
                    ELSE IF cr.fault # "" THEN CErr(C, cr.fault, j, cr.where)
                    ELSE [C EXCEPT !.inters[ii].responses[r].body = <<[format |-> cr.format, schema |-> cr.sch]>>]
               ELSE C
@@ -371,7 +371,13 @@ AddNode(C, X, j) ==
          ELSE IF Name1(n) \in C.opIds THEN CErr(C, "dupopid", j, "kw")
          ELSE IF C.inters[ii].opid # "" THEN CErr([C EXCEPT !.opIds = @ \cup {Name1(n)}], "notunique", j, "kw")
          ELSE [C EXCEPT !.opIds = @ \cup {Name1(n)}, !.inters[ii].opid = Name1(n)]
-    [] OTHER -> C       \* Path, Tags, ENUM, TAG, MACRO, PASTE: no add function
+    [] n.k = "Tags" ->     \* the directive is checked by itself too (a URL-level Tags that every method overrides is used by nobody)
+         LET names == Dedup(n.p) IN
+         IF n.a # "" THEN CErr(C, "annotation", j, "kw")
+         ELSE IF names = <<>> THEN CErr(C, "noparam", j, "kw")
+         ELSE IF \E x \in 1..Len(names) : IdxOf(C.tags, names[x]) = 0 THEN CErr(C, "tagnotfound", j, "kw")
+         ELSE C
+    [] OTHER -> C       \* Path, ENUM, TAG, MACRO, PASTE: no add function
 
 RECURSIVE AddFrom(_, _, _)
 AddFrom(C, X, j) == IF j > Len(X.nodes) \/ C.res # "ok" THEN C ELSE AddFrom(AddNode(C, X, j), X, j + 1)
@@ -421,9 +427,7 @@ Validate(C) ==
 \* T: the original tree (its root ENUMs are collected), X: the expanded tree.
 RunCatalog(T, X) ==
   IF X.res # "ok" THEN [EmptyCat EXCEPT !.res = "err", !.err = [cls |-> X.res, node |-> -X.errTok, where |-> "kw"]]
-  ELSE LET pasted == [x \in 1..Len(X.enumsAtPaste) |-> X.enumsAtPaste[x].node]
-           C0 == AddEnums(EmptyCat, T, pasted, 1)     \* already registered during the expansion (errors were raised there)
-           C1 == AddEnums(C0, T, SelectSeq(Kids(T, 0), LAMBDA j : T.nodes[j].k = "ENUM"), 1)
+  ELSE LET C1 == AddEnums(EmptyCat, X, RootsOfKind(X, "ENUM"), 1)   \* collectRules: the root ENUMs of the EXPANDED tree, in document order
            C2 == CollectTags(C1, X, RootsOfKind(X, "TAG"), 1)
            C3 == CollectTypes([C2 EXCEPT !.declared = TypeDeclNames(X)], X, RootsOfKind(X, "TYPE"), 1, {})
            C4 == CheckTypes(C3, X, RootsOfKind(X, "TYPE"), 1)
